@@ -110,6 +110,12 @@ def raw_dump(path, tables=TABLES):
     """Observer: plain read-only sqlite connection, never shared with a node."""
     conn = seams._real_connect("file:%s?mode=ro" % path, uri=True, timeout=0)
     try:
+        conn.execute("SELECT name FROM sqlite_master LIMIT 1").fetchall()
+    except sqlite3.OperationalError:
+        # e.g. a WAL-mode database whose -shm file has to be (re)built: needs a read-write connection
+        conn.close()
+        conn = seams._real_connect(path, timeout=0)
+    try:
         out = {}
         have = set(r[0] for r in conn.execute("SELECT name FROM sqlite_master WHERE type='table'"))
         for t in tables:
